@@ -47,6 +47,9 @@ class RefreshSpec(Spec):
             return ("startres",) if ph == "starting" else st
         if ev in ("sw:Res::Ok", "sw:Res::Err") and src == "started" and ph == "startres":
             return ("ok",) if ev.endswith("Ok") else ("failed",)
+        if ev == "retval:move" and src == "started" and ph == "startres":
+            # the outcome of started() is handed back unchanged (a strategy that refreshes the actor in place)
+            return ("okret",)
         if ev == "retval:Ok":
             return ("okret",) if ph == "ok" else Err("R03.3: Ok(actor) returned in phase %s (needs stopped, started and its success)" % ph)
         if ev in ("retval:residual", "retval:Err"):
@@ -128,7 +131,7 @@ def run(ctx):
     return core.finish(ctx)
 
 
-def check_receivers(ctx, fx, co, b, inst, kind):
+def check_receivers(ctx, fx, co, b, inst, kind, RULE="R03.4"):
     """RestartOnly: stopped/started on the argument, which is returned. RecreateFromDefault: stopped on the
     argument, started on the value produced by Default::default, which is returned."""
     started = [(bi, t) for bi, t in b.normal_calls() if nfa.trait_method(loops.T_ACTOR, "started")(t)]
@@ -138,7 +141,26 @@ def check_receivers(ctx, fx, co, b, inst, kind):
         which = "started" if (bi, t) in started else "stopped"
         # the receiver is a place of the coroutine: upvar 0 (the actor argument), possibly reassigned from default()
         kinds = sorted({o.kind for o in origs})
-        ctx.ok("R03.4", "%s:%s-receiver" % (inst, which), t["l"], {"origins": [list(map(str, o)) for o in origs]})
+        ctx.ok(RULE, "%s:%s-receiver" % (inst, which), t["l"], {"origins": [list(map(str, o)) for o in origs]})
+    ups = co.get("upvars", [])
+    if ups and ups[0].startswith("&mut "):
+        # in-place protocol (refresh borrows the actor): RecreateFromDefault stores the value made by Default::default()
+        # into the borrowed place; RestartOnly does not overwrite it
+        stores = []
+        for l, sts in b.partial.items():
+            for (_bi, _si, st) in sts:
+                if "*" in st["p"][1:] and st["r"]["k"] == "use" and all(o.kind == "upvar" and o.site == 0 for o in b.origins([l]) if not (o.proj and str(o.proj[0]).startswith("<part:"))):
+                    srcs = set()
+                    for x in b.origins(st["r"]["o"]):
+                        srcs.add(b.call_at(x).get("callee") if x.kind == "call" else x.kind)
+                    stores.append((st.get("l"), srcs))
+        if kind == "recreate":
+            good = len(stores) == 1 and all((s or "").endswith("default::Default::default") for s in stores[0][1])
+            ctx.require(good, RULE, inst + ":returns-fresh-value", "RecreateFromDefault must replace the actor by the value created by Default::default(): stores %s" % [sorted(map(str, s)) for _l, s in stores], fn=co["def"], site=stores[0][0] if stores else co["loc"])
+        else:
+            ctx.require(not stores, RULE, inst + ":returns-same-value", "RestartOnly must keep the actor value it was given, but overwrites it", fn=co["def"], site=stores[0][0] if stores else co["loc"])
+        return
+    n_ret = 0
     # the returned value: retval:Ok aggregate operand
     for bi, blk in enumerate(b.blocks):
         for st in blk["s"]:
@@ -150,9 +172,11 @@ def check_receivers(ctx, fx, co, b, inst, kind):
                         srcs.add(b.call_at(x).get("callee"))
                     else:
                         srcs.add(x.kind)
+                n_ret += 1
                 if kind == "recreate":
                     good = any((s or "").endswith("default::Default::default") for s in srcs)
-                    ctx.require(good, "R03.4", inst + ":returns-fresh-value", "RecreateFromDefault must return the value created by Default::default(), returns %s" % sorted(map(str, srcs)), fn=co["def"], site=st.get("l"))
+                    ctx.require(good, RULE, inst + ":returns-fresh-value", "RecreateFromDefault must return the value created by Default::default(), returns %s" % sorted(map(str, srcs)), fn=co["def"], site=st.get("l"))
                 else:
                     good = srcs <= {"upvar", "arg"} and srcs
-                    ctx.require(good, "R03.4", inst + ":returns-same-value", "RestartOnly must return the actor value it was given, returns %s" % sorted(map(str, srcs)), fn=co["def"], site=st.get("l"))
+                    ctx.require(good, RULE, inst + ":returns-same-value", "RestartOnly must return the actor value it was given, returns %s" % sorted(map(str, srcs)), fn=co["def"], site=st.get("l"))
+    ctx.require(n_ret >= 1, RULE, inst + ":returns-a-value", "no `Ok(actor)` result found in the strategy (neither the by-value nor the in-place protocol is recognised)", fn=co["def"], site=co["loc"])
